@@ -18,6 +18,10 @@ bool active(); // scheduler running and the calling thread is simulated
 bool running(); // scheduler running (any thread)
 void start(uint64_t seed, Policy p, int pctDepth, double spuriousP);
 void stop();
+// PCT only: re-draw the priority change points within `window` decisions of
+// the first decision taken at or after the virtual instant absNs (places the
+// preemptions where the plan has concurrent work instead of uniformly)
+void focus(int64_t absNs, int window);
 int self(); // simulated thread id, -1 if none
 int threadCount();
 uint64_t decisions(); // scheduling decisions taken so far
